@@ -1,7 +1,63 @@
 import KM.Driver.Core
-/-! Driver for C10 (stub until the property's model is built). -/
+import KM.Model.KeyStrength
+/-! Driver for C10.  Key descriptions: `unparsable` | `rsa:<bits>:<e>` | `ec:<curve bits>` | `ed25519` |
+`other`; paths `ssh x509 x509k8s role refresh aws`. -/
 namespace KM.Driver.C10
+open KM.Util KM.KeyStrength
 
-def handler (_mode : String) : Option Handler := none
+def pNat (s : String) : Option Nat := if s.isEmpty then none else s.toNat?
+
+def pDesc (s : String) : Option Submitted :=
+  if s == "unparsable" then some .unparsable
+  else if s == "ed25519" then some (.key .ed25519)
+  else if s == "other" then some (.key .other)
+  else match s.splitOn ":" with
+    | ["rsa", b, e] => do some (.key (.rsa (← pNat b) (← pNat e)))
+    | ["ec", n] => do some (.key (.ecdsa (← pNat n)))
+    | _ => none
+
+def pPath (s : String) : Option Path :=
+  match s with
+  | "ssh" => some .ssh | "x509" => some .x509 | "x509k8s" => some .x509k8s
+  | "role" => some .role | "refresh" => some .refresh | "aws" => some .aws
+  | _ => none
+
+def sOutcome : Outcome → String
+  | .issue => "issue" | .refuse => "refuse"
+
+/-- `key <path> <desc> <re 0|1>` ↦ `issue` | `refuse` -/
+def model : List String → String
+  | ["key", p, d, re] =>
+    match pPath p, pDesc d, parseBool re with
+    | some p, some d, some re => sOutcome (decide' p re d)
+    | _, _, _ => "bad-op"
+  | _ => "bad-op"
+
+/-- the property's predicate on what the implementation answered.
+`jkey <path> <desc> <status|PANIC> <samekey 1|0|->`: a certificate (200) only for a key the property
+allows and only for the submitted key; every refusal a 4xx; never a panic or a 5xx.
+`jtok <status|PANIC>`: no panic. -/
+def judge : List String → String
+  | ["jkey", p, d, st, same] =>
+    match pPath p, pDesc d with
+    | some _, some d =>
+      if st == "PANIC" then "viol panic"
+      else if st == "200" then
+        match d with
+        | .unparsable => "viol certificate-for-unparsable-key"
+        | .key k =>
+          if !spec k then "viol weak-key-certified"
+          else if same != "1" then "viol certificate-for-a-different-key"
+          else "ok"
+      else if st.length == 3 && st.startsWith "4" then "ok"
+      else s!"viol refusal-status-{st}"
+    | _, _ => "bad-op"
+  | ["jtok", st] => if st == "PANIC" then "viol panic" else if st.length == 3 then "ok" else "bad-op"
+  | _ => "bad-op"
+
+def handler (mode : String) : Option Handler :=
+  if mode == "model" then some (.pure model)
+  else if mode == "judge" then some (.pure judge)
+  else none
 
 end KM.Driver.C10
